@@ -436,6 +436,24 @@ def fsl2(rng, cplx, kind="sl2"):
     if kind == "word":
         M = np.array([[float(x) for x in r] for r in word_sl2(rng)])
         return M.astype(complex) if cplx else M
+    if kind == "fword":
+        # a long word in NON-exact generators (boosts, rotations, parabolics): entries up to ~1e5 and determinant 1 only up to
+        # the rounding of the products (|det - 1| ~ 1e-16·|entries|^2) — a perfectly valid element of SL(2,R) for every map
+        target = 10.0 ** rng.uniform(2.5, 5.0)
+        M = np.eye(2)
+        for _ in range(40):
+            t, th = rng.uniform(0.8, 2.2), rng.uniform(0, 2 * math.pi)
+            co, si = math.cos(th), math.sin(th)
+            Rm = np.array([[co, -si], [si, co]])
+            g = rng.choice([Rm @ np.array([[math.cosh(t), math.sinh(t)], [math.sinh(t), math.cosh(t)]]) @ Rm.T,
+                            np.array([[1.0, t], [0.0, 1.0]]), np.array([[1.0, 0.0], [-t, 1.0]]), Rm])
+            N = M @ g
+            if np.max(np.abs(N)) > 1e5:
+                break
+            M = N
+            if np.max(np.abs(M)) > target:
+                break
+        return M.astype(complex) if cplx else M
     if kind in ("locus", "locus_neg"):
         M = np.array([[float(x) for x in r] for r in special_sl2(rng)])
         if kind == "locus_neg":
@@ -515,13 +533,13 @@ def gen_hom(rng, n):
         if base == "irrep":
             param = rng.choice([1, 2, 3, 4, 5, 6])
             k, cplx = 2, rng.random() < 0.4
-            mk = lambda: fsl2(rng, cplx, rng.choice(["sl2", "zero", "locus", "word"]))
+            mk = lambda: fsl2(rng, cplx, rng.choice(["sl2", "zero", "locus", "word", "fword"]))
         elif base == "so21":
             k, cplx = 2, False
-            mk = lambda: fsl2(rng, False, rng.choice(["sl2", "zero", "neg", "locus", "locus_neg", "word", "word"]))
+            mk = lambda: fsl2(rng, False, rng.choice(["sl2", "zero", "neg", "locus", "locus_neg", "word", "fword", "fword"]))
         elif base == "so31":
             k, cplx = 2, True
-            mk = lambda: fsl2(rng, True, rng.choice(["sl2", "zero", "locus", "word"]))
+            mk = lambda: fsl2(rng, True, rng.choice(["sl2", "zero", "locus", "word", "fword"]))
         elif base in ("gln", "sln"):
             k, cplx = rng.choice([1, 2, 3, 4, 5, 6]), rng.random() < 0.3
             if base == "sln" and k == 1 and shape:
@@ -685,7 +703,7 @@ def judge_struct(inp, obs, lr):
 
 def gen_pgl(rng, n):
     for _ in range(n):
-        kind = rng.choice(["sl2", "sl2", "zero", "zero", "exactzero", "neg", "locus", "locus", "locus", "locus_neg", "word", "word"])
+        kind = rng.choice(["sl2", "sl2", "zero", "zero", "exactzero", "neg", "locus", "locus", "locus", "locus_neg", "word", "fword", "fword"])
         if kind == "exactzero":
             t = math.exp(rng.uniform(-1.5, 1.5)) * rng.choice([-1, 1])
             u = rng.gauss(0, 1)
@@ -695,7 +713,7 @@ def gen_pgl(rng, n):
                 [[t, 0.0], [0.0, 1 / t]], [[0.0, t], [-1 / t, 0.0]]]))
         else:
             A = fsl2(rng, False, kind)
-        B = fsl2(rng, False, rng.choice(["sl2", "zero", "locus", "word"]))
+        B = fsl2(rng, False, rng.choice(["sl2", "zero", "locus", "word", "fword"]))
         yield {"kind": kind, "A": enc_c(A), "B": enc_c(B)}
 
 
@@ -782,7 +800,7 @@ def gen_homhist(rng, n):
         param = rng.choice([2, 3, 4, 5]) if name == "irrep" else None
         if name in ("irrep", "so21", "so21_to_sl2", "so31"):
             k = 2
-            mk = lambda: fsl2(rng, name == "so31", rng.choice(["sl2", "zero", "locus", "word"]))
+            mk = lambda: fsl2(rng, name == "so31", rng.choice(["sl2", "zero", "locus", "word", "fword"]))
         else:
             k = rng.choice([2, 3, 4])
             cplx = name == "slr" or rng.random() < 0.3
@@ -802,7 +820,11 @@ def run_homhist(inp):
     for idx, c in enumerate(inp["calls"]):
         M = toarr(c["M"])
         X = np.asarray(lie.sl2_to_so21(M)) if name == "so21_to_sl2" else M
-        Xi = np.linalg.inv(X)
+        if name == "so21_to_sl2":
+            Jm = np.diag([-1.0, 1.0, 1.0])
+            Xi = Jm @ X.T @ Jm          # the inverse of an element of O(2,1), without inverting an ill-conditioned matrix
+        else:
+            Xi = np.linalg.inv(X)
         if c["inv"] == "keyword":
             out = h(X.copy(), inv=Xi)
         elif c["inv"] == "positional":
@@ -1265,7 +1287,7 @@ def gen_entry(rng, n):
     for _ in range(n):
         shape = rng.choice([[], [1], [2], [2, 2], [3], [3, 3], [2, 3]])     # [2], [2,2]: every axis of the 2x2 stack has length 2;
         cnt = int(np.prod(shape)) if shape else 1                            # [3], [3,3]: every axis of the 3x3 images has length 3
-        kinds = [rng.choice(["sl2", "zero", "locus", "word", "word"]) for _ in range(cnt)]
+        kinds = [rng.choice(["sl2", "zero", "locus", "word", "fword", "fword"]) for _ in range(cnt)]
         if rng.random() < 0.3:
             kinds = [rng.choice(["locus_neg", "neg", "sl2"]) for _ in range(cnt)]
         A = np.array([fsl2(rng, False, k) for k in kinds]).reshape(tuple(shape) + (2, 2))
